@@ -1,0 +1,42 @@
+// Verification hooks; compiled only with `--cfg oq3_verif`.
+// A thread-local recorder of symbol-table operations and diagnostics.
+
+use std::cell::RefCell;
+
+#[derive(Clone, Debug, PartialEq, Eq)]
+pub struct VerifEvent {
+    pub op: &'static str,
+    pub a: String,
+    pub b: String,
+    pub res: i64,
+}
+
+thread_local! {
+    static ENABLED: RefCell<bool> = const { RefCell::new(false) };
+    static EVENTS: RefCell<Vec<VerifEvent>> = const { RefCell::new(Vec::new()) };
+}
+
+/// Start recording (clears any previous events).
+pub fn start_recording() {
+    ENABLED.with(|e| *e.borrow_mut() = true);
+    EVENTS.with(|ev| ev.borrow_mut().clear());
+}
+
+/// Stop recording and return the events recorded since `start_recording`.
+pub fn take_trace() -> Vec<VerifEvent> {
+    ENABLED.with(|e| *e.borrow_mut() = false);
+    EVENTS.with(|ev| std::mem::take(&mut *ev.borrow_mut()))
+}
+
+pub(crate) fn record(op: &'static str, a: &str, b: &str, res: i64) {
+    if ENABLED.with(|e| *e.borrow()) {
+        EVENTS.with(|ev| {
+            ev.borrow_mut().push(VerifEvent {
+                op,
+                a: a.to_string(),
+                b: b.to_string(),
+                res,
+            })
+        });
+    }
+}
